@@ -30,6 +30,7 @@ class TestRecorder:
         self.events = []
         self.tokens = []
         self.ctokens = []
+        self.finals = {}
         self.dead = False        # an unsupported call was seen: recording stopped
         self.why = ""
 
@@ -118,8 +119,17 @@ class TestRecorder:
         if pre is None:
             pre = dict(self.cd.DEAD)
         self.events.append({"op": op, "t": t, "a": tuple(args), "res": res, "obs": ob, "toks": self.toks(), "pre": pre})
+        # the state every object has NOW is what the trace explains (later unrecorded manipulation must not be compared)
+        o = self.objs.get(t)
+        if o is not None:
+            try:
+                self.finals[t] = {"U": o.U_full.copy(), "n_modes": o.n_modes, "internal": list(o._internal_modes), "heralds": o.heralds,
+                                  "input_modes": o.input_modes, "values": self.resolved()}
+            except Exception as e:  # noqa: BLE001
+                self.finals[t] = {"err": "%s: %s" % (type(e).__name__, e)}
 
-    def finish(self):
+    def resolved(self):
+        """the numbers behind the symbolic ids NOW (Parameters are live)"""
         from lightworks.sdk.circuit.parameters import Parameter
         vals = []
         for v in self.values:
@@ -127,15 +137,13 @@ class TestRecorder:
                 vals.append(float(v.get()) if isinstance(v, Parameter) else float(v))
             except Exception:  # noqa: BLE001
                 vals.append(float("nan"))
+        return vals
+
+    def finish(self):
+        vals = self.resolved()
         init = {"op": "init", "t": 0, "a": (), "res": "ok", "circ": tuple(dict(self.cd.NULLC) for _ in range(MAX_OBJS)), "num": False,
                 "toks": tuple(0 for _ in range(MAX_OBJS))}
-        finals = {}
-        for s, o in self.objs.items():
-            try:
-                finals[s] = {"U": o.U_full.copy(), "n_modes": o.n_modes, "internal": list(o._internal_modes), "heralds": o.heralds,
-                             "input_modes": o.input_modes}
-            except Exception as e:  # noqa: BLE001
-                finals[s] = {"err": "%s: %s" % (type(e).__name__, e)}
+        finals = self.finals
         return {"test": self.name, "events": [init] + self.events, "values": vals, "blocks": self.blocks, "finals": finals,
                 "truncated": self.why}
 
